@@ -4,5 +4,5 @@ export GOFLAGS=-mod=mod GOPROXY=off GOSUMDB=off GOTOOLCHAIN=local GOWORK=off
 P="$1"; T=$(mktemp -d /tmp/tri.XXXXXX); cp -r /repo/. $T; rm -rf $T/.git
 (cd $T && git apply --unsafe-paths --directory=$T "$P") || { echo apply-failed; rm -rf $T; exit; }
 echo "##### $(basename $P)"
-${GOCHK:-/tmp/gochk_dev} -repo $T -verif /verif -prop all -no-evidence 2>&1 | grep -E "violated|undecided|analysed as a separate" | grep -v "^==" | grep -v floor | sed "s#$T/##g" | cut -c1-260 | sort -u | head -${2:-12}
+${GOCHK:-/tmp/gochk_dev} -repo $T -verif /verif -prop all -no-evidence 2>&1 | grep -E "violated|undecided|analysed as a separate" | grep -v "^==" | sed "s#$T/##g" | cut -c1-260 | sort -u | head -${2:-12}
 rm -rf $T
